@@ -64,7 +64,7 @@ def progOfJson (j : Json) : Option (List PCmd) := do
   let a ← jArr? j
   a.toList.mapM pcmdOfJson
 
-def errName : Err → String
+def asmErrName : Err → String
   | .noRegister => "noRegister" | .dupLabel => "dupLabel" | .unknownInstr => "unknownInstr"
   | .badOperands => "badOperands" | .notICmd => "notICmd"
 
@@ -115,14 +115,14 @@ def handleAsm (op : String) (j : Json) : Option Json :=
     let proto := if fixed then assembleProto Gen.excTable Gen.numScratch P
                  else assembleProtoTop Gen.excTable Gen.numScratch P
     pure (match proto with
-      | .error e => Json.mkObj [("err", (errName e : Json))]
+      | .error e => Json.mkObj [("err", (asmErrName e : Json))]
       | .ok P2 => match buildAll T P2 with
-        | .error e => Json.mkObj [("err", (errName e : Json))]
+        | .error e => Json.mkObj [("err", (asmErrName e : Json))]
         | .ok is => Json.mkObj [("ok", Json.arr (is.map instrToJson).toArray)])
   else if op == "asm.proto" then do
     let P ← (jField? j "p").bind progOfJson
     pure (match assembleProto Gen.excTable Gen.numScratch P with
-      | .error e => Json.mkObj [("err", (errName e : Json))]
+      | .error e => Json.mkObj [("err", (asmErrName e : Json))]
       | .ok P2 => Json.mkObj [("ok", Json.arr (P2.map pcmdToJson).toArray)])
   else if op == "asm.run" then do
     -- source semantics (or the semantics of any proto program) on the concrete machine
